@@ -125,6 +125,189 @@ example : parseXml false ⟨false, 0, some (false, [.entity "e" "EXPANDED"]), [.
 example : parseXmlFragment defuseXmlDefault
     ⟨false, 1, some (false, [.entity "e" "EXPANDED"]), [.ref "e"]⟩ = .error .forbidden := by rfl
 
+/-! ## The entity gate on the text (`XmlText.scanProlog`: the characters, not expat's events) -/
+
+/-- the document `parseText` returns carries exactly the DOCTYPE the prolog scan found -/
+theorem parseText_doctype (cs : List Char) (d : Doc) (h : XmlText.parseText cs = some d) :
+    d.doctype = (XmlText.scanProlog cs).doctype := by
+  unfold XmlText.parseText at h
+  simp only at h
+  split at h
+  · cases h
+  · split at h
+    · cases h
+    · split at h
+      · split at h
+        · cases h
+        · split at h
+          · cases h
+          · simp only [Option.map_eq_some_iff] at h
+            obtain ⟨items, _, rfl⟩ := h
+            rfl
+      · cases h
+
+/-- **Text level: an entity declaration in the prolog is refused.**  For every string: if the
+scan of its prolog reads an entity declaration (general, parameter, external, unparsed —
+wherever the DOCTYPE stands: after an XML declaration, comments, PIs, white space; even when a
+syntax error follows later) or completes a DOCTYPE with an external identifier, `fn:parse-xml`
+with the default parser raises `XMLResourceForbidden`. -/
+theorem text_entity_decl_rejected (s : String)
+    (h : (XmlText.scanProlog s.toList).forbidden = true) :
+    parseXmlText defuseXmlDefault s = .error .forbidden := by
+  simp [parseXmlText, defuseXmlDefault, h]
+
+/-- **Text level: nothing is expanded.**  Whenever `fn:parse-xml` (default parser) returns, the
+text denotes a document whose DOCTYPE — if any — declares no entity and whose content has no
+general entity reference. -/
+theorem text_no_expansion_when_defused (s v : String)
+    (h : parseXmlText defuseXmlDefault s = .ok v) :
+    ∃ d, XmlText.parseText s.toList = some d ∧ EPV.GlobalsSpec.mustReject d = false ∧
+      ∀ n, Item.ref n ∉ d.content := by
+  unfold parseXmlText at h
+  simp only [defuseXmlDefault, Bool.true_and] at h
+  cases hf : (XmlText.scanProlog s.toList).forbidden with
+  | true => simp [hf] at h
+  | false =>
+    simp only [hf, Bool.false_eq_true, ↓reduceIte] at h
+    cases hp : XmlText.parseText s.toList with
+    | none => simp [hp] at h
+    | some d =>
+      simp only [hp] at h
+      have hdt := parseText_doctype _ d hp
+      have hnone : ∀ ext decls, d.doctype = some (ext, decls) →
+          decls.any Decl.forbiddenDecl = false := by
+        intro ext decls hd
+        rw [hdt] at hd
+        simp only [XmlText.Prolog.forbidden, hd, Bool.or_eq_false_iff] at hf
+        exact hf.1
+      have hm : EPV.GlobalsSpec.mustReject d = false := by
+        unfold EPV.GlobalsSpec.mustReject
+        cases hd : d.doctype with
+        | none => rfl
+        | some p =>
+          obtain ⟨ext, decls⟩ := p
+          have := hnone ext decls hd
+          simp only
+          rw [List.any_eq_false] at this ⊢
+          intro x hx
+          have := this x hx
+          cases x <;> simp_all [Decl.forbiddenDecl, EPV.GlobalsSpec.isEntityDecl]
+      refine ⟨d, rfl, hm, ?_⟩
+      have hdecl : ∀ m v, Decl.entity m v ∉
+          (match d.doctype with | some (_, ds) => ds | none => []) := by
+        intro m v hx
+        cases hd : d.doctype with
+        | none => simp [hd] at hx
+        | some p =>
+          obtain ⟨ext, decls⟩ := p
+          simp only [hd] at hx
+          have := hnone ext decls hd
+          rw [List.any_eq_false] at this
+          exact absurd rfl (this _ hx)
+      unfold parseXml at h
+      simp only [Bool.false_eq_true, ↓reduceIte, bind, Except.bind] at h
+      exact expand_ok_no_ref _ hdecl d.content v h
+
+/-- the same for `fn:parse-xml-fragment`: it returns only if the text handed to the parser (the
+argument without its XML declaration) passes the same scan -/
+theorem text_fragment_no_expansion_when_defused (s v : String) (declOk : Bool)
+    (h : parseXmlFragmentText defuseXmlDefault declOk s = .ok v) :
+    ∃ b d, XmlText.parseText b = some d ∧ EPV.GlobalsSpec.mustReject d = false ∧
+      ∀ n, Item.ref n ∉ d.content := by
+  unfold parseXmlFragmentText at h
+  simp only at h
+  split at h
+  · cases h
+  · next b _ =>
+    split at h
+    · cases h
+    · obtain ⟨d, h1, h2, h3⟩ := text_no_expansion_when_defused _ v h
+      exact ⟨_, d, h1, h2, h3⟩
+
+set_option maxRecDepth 20000 in
+/-- kernel-checked instances on texts that defeat textual shortcuts: the DOCTYPE stands after an
+XML declaration, a comment that itself contains `<!DOCTYPE`, and a PI; the entity value contains
+`]>`; an attribute default contains `>` -/
+theorem text_gate_witnesses :
+    parseXmlText defuseXmlDefault
+      "<?xml version=\"1.0\"?><!-- <!DOCTYPE x> --><?p ?><!DOCTYPE r [<!ATTLIST r a CDATA \">\"><!ENTITY e \"]>EXP\">]><r>&e;</r>"
+      = .error .forbidden ∧
+    parseXmlFragmentText defuseXmlDefault true "<!-- c --><!DOCTYPE r [<!ENTITY e \"EXP\">]><r>&e;</r>"
+      = .error .forbidden ∧
+    parseXmlText defuseXmlDefault "<!DOCTYPE r [<!ENTITY % p SYSTEM \"x\"> %p;]><r>t</r>" = .error .forbidden ∧
+    parseXmlText defuseXmlDefault "<!DOCTYPE r PUBLIC \"-//x\" \"x.dtd\"><r>t</r>" = .error .forbidden ∧
+    parseXmlText defuseXmlDefault "<!-- <!DOCTYPE r [<!ENTITY e \"x\">]> --><r>a&lt;b</r>" = .ok "a<b" ∧
+    parseXmlText false "<!DOCTYPE r [<!ENTITY e \"EXP\">]><r>a&e;</r>" = .ok "aEXP" := by
+  refine ⟨by rfl, by rfl, by rfl, by rfl, by rfl, by rfl⟩
+
+/-! ## Facts about the package source, regenerated on every run (AST scan + live inspection)
+
+These pin down *where* process-global state can be touched at all; the models above describe
+what happens at exactly those places. -/
+
+/-- **Every locale switch goes through `CollationManager`.**  In the whole package the only calls
+`setlocale(category, <not None>)` are in `CollationManager.__enter__` (the probe bracket),
+`CollationManager._locale_call` (the comparison bracket) and the helper `get_locale_category`,
+which nothing in the package calls. -/
+theorem locale_switched_only_by_the_brackets :
+    setlocaleSetSites = [("elementpath.collations", "CollationManager.__enter__"),
+      ("elementpath.collations", "CollationManager._locale_call"),
+      ("elementpath.collations", "get_locale_category")] ∧
+    getLocaleCategoryCallSites = [] := by decide
+
+/-- **The lock is only ever taken by a `with` statement** (so it is released on every exit path,
+as `leave` / `Thr.step` assume), in the two bracket routines and nowhere else. -/
+theorem lock_taken_only_by_with :
+    lockBareSites = [] ∧
+    lockWithSites = [("elementpath.collations", "CollationManager.__enter__"),
+      ("elementpath.collations", "CollationManager._locale_call")] := by decide
+
+/-- **The decimal context is never touched**: no source file mentions `getcontext`, `setcontext`,
+`localcontext` or the predefined contexts (a private `Context(prec=30)` object is built in
+`Duration.__init__` and passed to `quantize` — that does not change the thread's context). -/
+theorem decimal_global_context_never_touched :
+    decimalGlobalContextSites = [] ∧
+    decimalPrivateContextSites = [("elementpath.datatypes.datetime", "Duration.__init__")] := by
+  decide
+
+/-- **`os.environ` is never written**, and it is read only by the two gated functions that
+`envVar` / `availEnvVars` model. -/
+theorem environ_never_written :
+    environWriteSites = [] ∧
+    environReadSites = [("elementpath.xpath30._xpath30_functions", "evaluate__available_env_vars"),
+      ("elementpath.xpath30._xpath30_functions", "evaluate__environment_variable")] := by decide
+
+/-- module-level state that is written after import time and has been reviewed: memo caches of
+pure functions (`lru_cache`), lazily loaded Unicode tables (`__subsets_cache`, `__unicode_data`,
+also replaced by the public `install_unicode_data`), lazily built validator schemas, and the
+class-level token / signature tables filled by the registration decorators while the parser
+classes are being defined. -/
+def reviewedGlobals : List (String × String) :=
+  [("elementpath.sequence_types", "normalize_sequence_type"),
+   ("elementpath.sequence_types", "is_sequence_type_restriction"),
+   ("elementpath.sequence_types", "is_st"),
+   ("elementpath.schema_proxy", "cached_find"),
+   ("elementpath.regex.unicode_subsets", "__subsets_cache"),
+   ("elementpath.regex.unicode_subsets", "__unicode_data"),
+   ("elementpath.validators.__init__", "analyzed_string_schema"),
+   ("elementpath.validators.__init__", "json_to_xml_schema"),
+   ("elementpath.tdop", "*.symbol_table"),
+   ("elementpath.xpath1.xpath1_parser", "*.function_signatures")]
+
+/-- every module-level / class-level mutable object that some function body can write (static
+scan), and every one that actually changed while the translator's battery ran, is on the
+reviewed list — a new piece of runtime-written global state stops this from compiling -/
+theorem runtime_written_globals_reviewed :
+    (staticallyWrittenGlobals ++ writtenAfterImport).all (fun x => reviewedGlobals.contains x) = true := by
+  decide
+
+/-- **Repetition writes nothing and changes no answer**: after the battery has run once, running
+it again (in the same and in reverse order, with all four parsers) changes none of the
+`mutableGlobalsCount` module-level objects, and every expression returns the same canonical
+result all three times -/
+theorem repetition_writes_nothing :
+    writtenByRepetition = [] ∧ batteryResultsThatDiffer = [] := by decide
+
 /-- the model's lock is the library's lock: not reentrant (if the library switches to an
 `RLock` the sequential and thread models no longer describe it) -/
 theorem lock_not_reentrant : lockReentrant = false := rfl
